@@ -285,6 +285,26 @@ ACTION_KINDS = {
 }
 
 
+def action_router(case):
+    build, _table = ACTION_KINDS[case["action"]]
+    if case["place"] == "bare":
+        router = pt.Router("r", pt.BareCallActions(no_op=pt.OnCompleteAction(action=build(), call_config=pt.CallConfig.CALL)),
+                           clear_state=pt.Approve())
+    else:
+        router = pt.Router("r", pt.BareCallActions(no_op=pt.OnCompleteAction(action=pt.Approve(), call_config=pt.CallConfig.CREATE)),
+                           clear_state=build())
+    router.add_method_handler(make_method("m0", "Mm0"), method_config=pt.MethodConfig(no_op=pt.CallConfig.CALL))
+    return router
+
+
+def programs_for(case, ver):
+    """(approval text, clear text) of a router case of families (a)-(d), (g) - for the checks that look at emitted
+    programs as such (C04 legality / control flow, C05 stack discipline)"""
+    router = action_router(case) if "action" in case else build_router(case)
+    approval, clear, _c = router.compile_program(version=ver)
+    return approval, clear
+
+
 def check_action(case, out, versions):
     cnt, oc_ = out["counters"], out["outcomes"]
     build, table = ACTION_KINDS[case["action"]]
